@@ -2,7 +2,7 @@
    Property theorems only: each is closed by [exact] of a lemma of
    ProofsA/B/C or Bridge and followed by Print Assumptions. *)
 From Coq Require Import String List ZArith NArith Bool Permutation.
-From VF.C06 Require Import Model ProofsA ProofsB ProofsC Bridge.
+From VF.C06 Require Import Model ProofsA ProofsB ProofsC ProofsD Bridge.
 From VF.gen Require Import C06MapRanges.
 Import ListNotations.
 Local Open Scope Z_scope.
@@ -83,6 +83,31 @@ Theorem C06_cache_free :
 Proof. exact process_evidences_cache_free. Qed.
 Print Assumptions C06_cache_free.
 
+(* 3a. the object cache of the StateDB (staking records): a StateDB carried over
+       from previous blocks (side-chain verification executes a whole fork on one
+       StateDB) whose cache is coherent with its trie gives, for EVERY sequence of
+       record reads, pending-total checks (including the failing errStakesOverflow
+       ones), writes, flushes and period resets, the outputs a fresh StateDB opened
+       on the same trie gives, and leaves the same trie content behind *)
+Theorem C06_object_cache_free :
+  forall stake_unit max_stake s ops, sr_coherent s -> sr_dirty s = [] ->
+    snd (sr_run (sr_check stake_unit max_stake) s ops) =
+    snd (sr_run (sr_check stake_unit max_stake) (sr_fresh (sr_trie s)) ops) /\
+    geq (sr_trie (sr_flush (fst (sr_run (sr_check stake_unit max_stake) s ops))))
+        (sr_trie (sr_flush (fst (sr_run (sr_check stake_unit max_stake) (sr_fresh (sr_trie s)) ops)))).
+Proof. exact object_cache_free. Qed.
+Print Assumptions C06_object_cache_free.
+
+(* 3b. the hypothesis of 3a is an invariant: a fresh StateDB is coherent and every
+       operation keeps it so (the harness checks the same predicate on the real
+       StateDB after every block) *)
+Theorem C06_cache_coherence_invariant :
+  (forall t, sr_coherent (sr_fresh t)) /\
+  (forall stake_unit max_stake ops s, sr_coherent s ->
+     sr_coherent (fst (sr_run (sr_check stake_unit max_stake) s ops))).
+Proof. exact (conj fresh_coherent coherence_preserved). Qed.
+Print Assumptions C06_cache_coherence_invariant.
+
 (* 4. determinism: the result of processing a block is independent of iteration
       orders and cache contents *)
 Theorem C06_deterministic : C06_determinism_full.
@@ -158,3 +183,19 @@ Proof.
   split; [exact Witness.positive_penalty_block_accepted | exact Witness.zero_penalty_block_accepted].
 Qed.
 Print Assumptions C06_nonvacuous_agreement.
+
+(* the object-cache theorem is about something: with the code as it is a carried
+   and a fresh StateDB agree on a failed over-maximum delegation followed by a
+   small one; with the live value handed out (the seeded variant) the carried
+   StateDB refuses what the fresh one accepts and its cache is incoherent *)
+Example C06_nonvacuous_object_cache :
+  (let carried := fst (sr_run (sr_check AliasWitness.yu 100) (sr_fresh AliasWitness.trie0) AliasWitness.block1) in
+   snd (sr_run (sr_check AliasWitness.yu 100) carried AliasWitness.block2) = [1] /\
+   snd (sr_run (sr_check AliasWitness.yu 100) (sr_fresh (sr_trie carried)) AliasWitness.block2) = [1]) /\
+  (let carried := fst (sr_run (sr_check_alias AliasWitness.yu 100) (sr_fresh AliasWitness.trie0) AliasWitness.block1) in
+   snd (sr_run (sr_check_alias AliasWitness.yu 100) carried AliasWitness.block2) = [0] /\
+   snd (sr_run (sr_check_alias AliasWitness.yu 100) (sr_fresh (sr_trie carried)) AliasWitness.block2) = [1] /\
+   sr_cache carried 7%N = Some (223 * AliasWitness.yu) /\ sr_trie carried 7%N = Some (23 * AliasWitness.yu) /\
+   sr_dirty carried = []).
+Proof. exact (conj AliasWitness.sound_variant_agrees AliasWitness.alias_variant_depends_on_cache). Qed.
+Print Assumptions C06_nonvacuous_object_cache.
